@@ -61,7 +61,12 @@ namespace glm
 		{
 			GLM_STATIC_ASSERT(std::numeric_limits<genType>::is_iec559 || GLM_CONFIG_UNRESTRICTED_FLOAT, "'round' only accept floating-point inputs");
 
-			return x < static_cast<genType>(0) ? static_cast<genType>(int(x - static_cast<genType>(0.5))) : static_cast<genType>(int(x + static_cast<genType>(0.5)));
+			// Round half away from zero like std::round, on the floating-point value itself: going
+			// through int is out of range beyond 2^31 and x + 0.5 is inexact just below 0.5 and above 2^23
+			genType const Abs = x < static_cast<genType>(0) ? -x : x;
+			genType const Floor = std::floor(Abs);
+			genType const Rounded = (Abs - Floor >= static_cast<genType>(0.5)) ? Floor + static_cast<genType>(1) : Floor;
+			return x < static_cast<genType>(0) ? -Rounded : Rounded;
 		}
 #	endif
 
